@@ -482,6 +482,52 @@ def unroll_join_accumulations(tree):
     return count
 
 
+def prune_constant_tests(tree):
+    """Normalisation: ``if True: A else: B`` is A, ``x if False else y`` is y
+    (literal tests appear when a helper with a flag parameter is expanded at a
+    call that passes a literal)."""
+    count = 0
+
+    def truth(e):
+        if isinstance(e, ast.Constant) and isinstance(e.value, (bool, int, float, str, type(None))):
+            return bool(e.value)
+        if isinstance(e, ast.UnaryOp) and isinstance(e.op, ast.Not):
+            t = truth(e.operand)
+            return None if t is None else not t
+        return None
+    changed = True
+    while changed:
+        changed = False
+        for holder in ast.walk(tree):
+            for field in ('body', 'orelse', 'finalbody'):
+                block = getattr(holder, field, None)
+                if not (isinstance(block, list) and block and isinstance(block[0], ast.stmt)):
+                    continue
+                new = []
+                for st in block:
+                    t = truth(st.test) if isinstance(st, ast.If) else None
+                    if t is None:
+                        new.append(st)
+                        continue
+                    new.extend(st.body if t else st.orelse)
+                    count += 1
+                    changed = True
+                if not new and field == 'body':
+                    new = [ast.copy_location(ast.Pass(), block[0])]
+                setattr(holder, field, new)
+        for node in ast.walk(tree):
+            if isinstance(node, ast.IfExp):
+                t = truth(node.test)
+                if t is not None:
+                    rep = node.body if t else node.orelse
+                    node.__class__ = rep.__class__
+                    node.__dict__.clear()
+                    node.__dict__.update(rep.__dict__)
+                    count += 1
+                    changed = True
+    return count
+
+
 def flatten_private_bases(tree):
     """Normalisation: a private intermediate base class of the module
     (``class _Common(Base)`` with ``class A(_Common)``, ``class B(_Common)``)
@@ -837,13 +883,17 @@ def sink_selected_callees(tree):
                         for s_ in reversed(b):
                             if isinstance(s_, ast.Assign) and len(s_.targets) == 1 \
                                     and isinstance(s_.targets[0], ast.Name) \
-                                    and isinstance(s_.value, (ast.Name, ast.Attribute)) \
-                                    and dotted_pure(s_.value) and s_.targets[0].id not in m:
+                                    and (isinstance(s_.value, (ast.Name, ast.Attribute)) and dotted_pure(s_.value)
+                                         or isinstance(s_.value, ast.Constant)) \
+                                    and s_.targets[0].id not in m:
                                 m[s_.targets[0].id] = s_.value
                             else:
                                 break
                         maps.append(m)
                     if not maps[0] or any(set(m) != set(maps[0]) for m in maps):
+                        continue
+                    # a selection of flags only (`found = True` / `found = False`) stays a flag
+                    if all(isinstance(v, ast.Constant) for m in maps for v in m.values()):
                         continue
                     names = set(maps[0])
                     n_alias = len(names)
@@ -1297,6 +1347,7 @@ class Module:
         from .inline import inline_private_helpers
         self.flattened_bases = flatten_private_bases(self.tree)
         self.inlined_helpers = inline_private_helpers(self.tree)
+        self.pruned_tests = prune_constant_tests(self.tree)
         self.unrolled_callee_loops = unroll_callee_loops(self.tree)
         if self.unrolled_callee_loops:
             # calls that became visible by unrolling
@@ -1307,6 +1358,8 @@ class Module:
         self.split_tuple_locals = split_tuple_locals(self.tree)
         self.split_tuples = split_tuple_assignments(self.tree)
         self.sunk_callees = sink_selected_callees(self.tree)
+        if self.sunk_callees:
+            self.pruned_tests += prune_constant_tests(self.tree)
         self.unrolled_joins = unroll_join_accumulations(self.tree) + unroll_join_tails(self.tree)
         self.unrolled_records = unroll_record_comprehensions(self.tree)
         self.propagated_constants = propagate_module_constants(self.tree)
